@@ -159,6 +159,12 @@ mutant('C03', 'dmag2 kernel transposed c vector', 'atomman/core/dmag.pyx', 'z * 
 mutant('C03', 'getitem ignores coord', NLP, 'return self.__neighbors[key, :self.coord[key]]', 'return self.__neighbors[key]', 'NEIGHBORLIST')
 mutant('C03', 'coord from wrong column', NLP, "        self.__coord = self.__nlist[:, 0]", "        self.__coord = self.__nlist[:, 1]", 'NEIGHBORLIST')
 mutant('C03', 'load count off by one', NLP, 'self.__coord[i] = len(terms) - 1', 'self.__coord[i] = len(terms)', 'NEIGHBORLIST')
+mutant('C03', 'unique rows over the flattened table', NL, "return np.unique(a.view(np.dtype((np.void, a.dtype.itemsize*a.shape[1])))).view(a.dtype).reshape(-1, a.shape[1])", "return np.unique(a).reshape(-1, 1).repeat(a.shape[1], axis=1)", 'UNIQUE-ROWS')
+mutant('C03', 'unique rows keyed on two columns', NL, "return np.unique(a.view(np.dtype((np.void, a.dtype.itemsize*a.shape[1])))).view(a.dtype).reshape(-1, a.shape[1])", "return np.unique(a[:, :2], axis=0)", 'UNIQUE-ROWS')
+mutant('C03', 'pairs start two after u', NL, "            for w, v in enumerate(range(u+1, longlist.shape[0])):\n                if dmag2[w] < cutoff2:\n                    vindex = longlist[v]", "            for w, v in enumerate(range(u+1, longlist.shape[0])):\n                if dmag2[w] < cutoff2 and w > 0:\n                    vindex = longlist[v]", 'CONFIGURATIONS')
+mutant('C03', 'ghost images only upwards along a', NL, "    if pbc_a:\n        xl, xh = -1, 2", "    if pbc_a:\n        xl, xh = 0, 2", 'GEOMETRY')
+benign('C03', 'unique rows along axis 0', NL, "return np.unique(a.view(np.dtype((np.void, a.dtype.itemsize*a.shape[1])))).view(a.dtype).reshape(-1, a.shape[1])", "return np.unique(a, axis=0)")
+benign('C03', 'sweep compares through a mask', NL, "            for w, v in enumerate(range(u+1, longlist.shape[0])):\n                if dmag2[w] < cutoff2:\n                    vindex = longlist[v]", "            within = np.asarray(dmag2) < cutoff2\n            for w in range(within.shape[0]):\n                if within[w]:\n                    vindex = longlist[u + 1 + w]")
 benign('C03', 'padding a bit larger', NL, 'supermin[j] -= 1.01 * cutoff', 'supermin[j] -= 1.05 * cutoff')
 benign('C03', 'cutoff test flipped', NL, 'if dmag2[w] < cutoff2:', 'if cutoff2 > dmag2[w]:')
 
